@@ -102,7 +102,7 @@ theorem mapIP_attr {Kn Ka : List HTree} (w : Work g R fs c vc (Kn ++ Ka) n v)
     says, and does not fail. -/
 theorem anyAppend_fresh (w : Work g R fs c vc K n v) (adm : Admissible vc K v) :
     g.anyAppend c n =
-      (g.withRoots (R ++ [plug fs (.node c vc (snocClone g.consolidation K (.node n v [])))]), .ok, n) := by
+      (g.withRoots (R ++ [fcPlug fs (.node c vc (snocClone g.consolidation K (.node n v [])))]), .ok, n) := by
   unfold Forest.anyAppend
   rw [w.value?_n]
   cases v with
